@@ -36,9 +36,12 @@ Open Scope N_scope.
    lists/maps created on the way counted from the same next_id, and the same next_id afterwards);
    if the Spec gives no value, the walker returns an error.  In both cases the walker has written
    nothing and left scope, mode and writer untouched (frame_eq).
-   Guard: the Spec's third outcome OutOfModel (a float result that is not dyadic / not a binary64,
-   an integer result outside int64, randomInt's value, round with digits <> 0) is outside the
-   statement; wf_expr: distinct keys in a map literal, referenced globals defined, "$ij" is EIj. *)
+   Guard: the Spec's third outcome OutOfModel (an integer result outside int64, randomInt's value,
+   round with digits <> 0, an int beyond 2^53 used as a float, a float beyond the exponent range of
+   the model, round/floor/ceiling/min/max where their exact computation is not a binary64) is outside
+   the statement -- an inexact result of + - * / is NOT: both sides round it to the nearest binary64,
+   ties to even (Num.fl_add_r ...); wf_expr: distinct keys in a map literal, referenced globals
+   defined, "$ij" is EIj. *)
 Theorem C01_eval_impl_spec : forall G ij cf fuel e st,
   c_ij cf = ij -> ExprTrans.wf_expr G e = true -> (height e <= fuel)%nat ->
   (forall v n', eval_spec G (flatten (ctx st)) ij e (next_id st) = Ok (v, n') ->
@@ -197,7 +200,7 @@ Theorem C01_div_mod : forall a c v,
 Proof.
   intros a c v. split.
   - cbn [sem_strict]. unfold sem_div. destruct (number_of a); cbn; try discriminate.
-    destruct (number_of c); cbn; try discriminate. destruct (fl_div v0 v1); cbn; try discriminate.
+    destruct (number_of c); cbn; try discriminate. destruct (fl_div_r v0 v1); cbn; try discriminate.
     intros [= <-]. eauto.
   - cbn [sem_strict]. unfold sem_mod, no_value. destruct a; try discriminate. destruct c; try discriminate.
     destruct (Z.eqb_spec z0 0); [discriminate|]. unfold int_result.
